@@ -656,3 +656,7 @@ PLANS["C07"]["thorough"] = [hist("inv-d1-san", "san", 1, family="inv", weight=6)
 _dl("C07", thorough=2400)
 
 PLANS["C12"]["quick"] = PLANS["C12"]["quick"] + [lp("T-k1", "prod", "T", "k1", weight=3, opts={"fam": "T", "cfg": "k1", "tscale": 30})]
+
+PLANS["C04"]["quick"] = PLANS["C04"]["quick"] + [fam("warm-allbases-Sbq", "prodl1", "basis", {"fam": "Sbq", "files": 0, "verify": 0, "warm": 1}, weight=2, crash_props=["C17", "C04"])]
+PLANS["C04"]["rule"] = PLANS["C04"]["rule"].replace("must return the reference truth;", "must return the reference truth, and so must mpq_QSopt_primal / mpq_QSopt_dual after mpq_QSload_basis of the same basis;", 1)
+_dl("C04", quick=900)
